@@ -214,12 +214,13 @@ Proof.
   rewrite A in EK. apply app_inj_tail in EK. destruct EK as [-> ->].
   rewrite B in EG. apply app_inj_tail in EG. destruct EG as [-> ->].
   rewrite Hreal, !map_app in C. cbn [map] in C.
-  destruct (chain_split rate _ _ _ _ _ _ _ _ ltac:(now rewrite !map_length) C) as ((x & rest & Ex & H1 & H2) & C2).
+  assert (Hlen : length (map seg_key (real_segs P)) = length (map seg_samples (real_segs P))) by now rewrite !map_length.
+  destruct (chain_split rate _ _ _ _ _ _ _ _ Hlen C) as ((x & rest & Ex & H1 & H2) & C2).
   destruct (chain_next rate _ _ _ _ _ _ _ C2 D E1) as (y & after & Ey & Hy).
   exists x, rest, y, after. split; [exact Ex|]. split; [|split; [exact H1|split; [exact H2|exact Hy]]].
   rewrite P3, B, Hreal, concat_app, !map_app, concat_app. cbn [map concat app].
-  rewrite flat_map_concat_map, Ex, <- !app_assoc. cbn [app]. rewrite <- !app_assoc in Ey. rewrite <- app_assoc.
-  do 2 f_equal. rewrite app_nil_r. exact Ey.
+  rewrite app_nil_r, flat_map_concat_map, Ex, <- !app_assoc. cbn [app]. rewrite <- !app_assoc in Ey.
+  rewrite <- Ey. reflexivity.
 Qed.
 
 (* (a) and (b) on segment records: every non-gap evicted or listed segment g of the leading stream has samples
@@ -258,7 +259,7 @@ Proof.
   destruct i as [|i]; cbn [gen_segs nth_error] in He, Hg.
   - injection He as <-. injection Hg as <-.
     destruct (sg_gap s); cbn [ps_dt] in Hd; [discriminate|].
-    destruct v; [|destruct (Nat.leb _ 2)|destruct (Nat.leb _ 2)]; congruence.
+    destruct v; [|destruct (Nat.leb _ _)|destruct (Nat.leb _ _)]; congruence.
   - eapply IH; eauto.
 Qed.
 
@@ -338,4 +339,40 @@ Proof.
     as (_ & _ & x & rest & y & after & A & _ & _ & D & _).
   exists s, g, x, rest. split; [reflexivity|]. split; [exact Hg|]. split; [exact Hid|]. split; [exact A|].
   intros ntp Hd. rewrite <- D. now apply Hdt.
+Qed.
+
+(* ---- non-vacuity: a Low-Latency history with two complete segments (333 ms frames at 90 kHz, a random-access unit
+   every third frame, SegmentMinDuration 1 s).  The playlist lists five gaps and the segments 7 and 8; their first
+   samples have decode times 900000 and 990000 (10 s and 11 s with the muxer's offset), the third (open) segment
+   starts with decode time 1080000 (12 s): both EXTINF are 1 s, and the date-times are the wall clocks written
+   with the units 10 and 13. *)
+Definition sp_ops : list wop :=
+  map (fun k => WWrite 0 (ex_au (k * 30000) (Z.rem k 3 =? 0) (10 + k))) [0;1;2;3;4;5;6;7].
+
+Lemma span_example : exists m0 t pl e1 e2,
+  start ex_cfg = Ok m0 /\ c_variant ex_cfg <> MPEGTS /\ all_ok m0 sp_ops
+  /\ let m := mux_run m0 sp_ops in
+     let li := leading_index m in
+     nth_error (m_tracks m) li = Some t /\ t_rate (tk_cfg t) = 90000
+     /\ gen_media_playlist m li = Some pl
+     /\ nth_error (pl_segs pl) 5 = Some e1 /\ ps_gap e1 = false
+     /\ nth_error (pl_segs pl) 6 = Some e2 /\ ps_gap e2 = false
+     /\ (ps_id e1, ps_dur e1, ps_dt e1) = (7, 1000000000, Some 1700000000000000000)
+     /\ (ps_id e2, ps_dur e2, ps_dt e2) = (8, 1000000000, Some 1700000000999990000)
+     /\ map (map (fun x => (s_pay x, s_dts x, s_ntp x))) (glog m li)
+        = [[(10, 900000, 1700000000000000000); (11, 930000, 1700000000333330000); (12, 960000, 1700000000666660000)];
+           [(13, 990000, 1700000000999990000); (14, 1020000, 1700000001333320000); (15, 1050000, 1700000001666650000)];
+           [(16, 1080000, 1700000001999980000)]]
+     /\ (timestampToDuration 900000 90000, timestampToDuration 990000 90000, timestampToDuration 1080000 90000)
+        = (10000000000, 11000000000, 12000000000).
+Proof.
+  destruct (start ex_cfg) as [m0| |] eqn:E; [|vm_compute in E; discriminate|vm_compute in E; discriminate].
+  vm_compute in E. injection E as <-.
+  eexists. eexists. eexists. eexists. eexists.
+  split; [reflexivity|]. split; [discriminate|]. split; [vm_compute; tauto|]. cbv zeta.
+  split; [vm_compute; reflexivity|]. split; [vm_compute; reflexivity|]. split; [vm_compute; reflexivity|].
+  split; [vm_compute; reflexivity|]. split; [vm_compute; reflexivity|].
+  split; [vm_compute; reflexivity|]. split; [vm_compute; reflexivity|].
+  split; [vm_compute; reflexivity|]. split; [vm_compute; reflexivity|].
+  split; vm_compute; reflexivity.
 Qed.
